@@ -714,6 +714,10 @@ func (d *Data) readChunk(chunk *storage.Chunk) {
 			dvid.Errorf("Unable to deserialize block in '%s': %v\n", d.DataName(), err)
 			return
 		}
+		if expected := d.BlockSize().Prod() * int64(d.Values.BytesPerElement()); int64(len(blockData)) != expected {
+			dvid.Errorf("Deserialized block length (%d) != expected block length (%d) in '%s'\n", len(blockData), expected, d.DataName())
+			return
+		}
 	}
 
 	// Perform the operation.
